@@ -49,6 +49,9 @@ class Prog:
         return "\n".join(out) + "\n"
 
 
+LOOPREGS = [f"s{x}{d}" for d in (0, 1) for x in "abcns"]
+
+
 def fmt_op(o):
     if isinstance(o, tuple):
         if o[0] == "mem":
@@ -92,6 +95,7 @@ class FuncGen:
         self.dbls = [f"d{k}" for k in range(self.o["ndbl"])]
         self.flts = ["f0", "f1"]
         self.nlab = 0
+        self.loopdepth = 0
         self.st = prog.stats
 
     def stat(self, k):
@@ -206,7 +210,16 @@ class FuncGen:
                 self.emit("negs", d, self.ireg()); self.emit("ext32", d, d)
             self.stat("neg")
         elif k == 11:
-            self.emit("mov", d, self.isrc()); self.stat("mov")
+            if r.chance(1, 3):   # swap / rotation of registers (parallel-copy problems of out-of-SSA in loops)
+                a, b, c = self.ireg(), self.ireg(), self.ireg()
+                t = self.ireg()
+                if r.chance(1, 2):
+                    self.emit("mov", t, a); self.emit("mov", a, b); self.emit("mov", b, t)
+                else:
+                    self.emit("mov", t, a); self.emit("mov", a, b); self.emit("mov", b, c); self.emit("mov", c, t)
+                self.stat("swap")
+            else:
+                self.emit("mov", d, self.isrc()); self.stat("mov")
         elif k == 12 and self.o["mem"]:
             t = r.choice(MEMT)
             m = self.mem(t)
@@ -348,10 +361,52 @@ class FuncGen:
             self.emit("ext32", d, d)
         self.stat("ovf")
 
+    def gen_loop(self):
+        """a small counted inner loop whose carried registers are swapped / rotated every iteration and read
+        only inside the loop (phis reading each other's results: the lost-copy and swap problems of out-of-SSA);
+        the body optionally spans several blocks and the carried values are optionally live after the loop"""
+        r = self.r
+        dep = self.loopdepth
+        self.loopdepth += 1
+        sa, sb, sc, sn, ss = (f"s{x}{dep}" for x in "abcns")
+        head, skip = self.lab("LH"), self.lab("LS")
+        self.emit("mov", sa, self.isrc()); self.emit("mov", sb, self.isrc()); self.emit("mov", sc, self.isrc())
+        self.emit("mov", ss, 0)
+        self.emit("mov", sn, 1 + r.below(5))
+        self.emit("label", head)
+        self.emit("mul", ss, ss, 10)
+        self.emit(r.choice(["add", "xor", "sub"]), ss, ss, r.choice([sa, sb]))
+        form = r.below(4)
+        if form == 0:
+            self.emit("mov", "t0", sa); self.emit("mov", sa, sb); self.emit("mov", sb, "t0")
+        elif form == 1:
+            self.emit("mov", "t0", sa); self.emit("mov", sa, sb); self.emit("mov", sb, sc); self.emit("mov", sc, "t0")
+        elif form == 2:   # lost copy: the old value is read after the new one is made
+            self.emit("mov", "t0", sa); self.emit("add", sa, sa, 1); self.emit("mov", sb, "t0")
+        else:
+            self.emit("mov", "t0", sb); self.emit("add", sb, sa, sc); self.emit("mov", sa, "t0")
+        if r.chance(2, 3):   # several blocks in the loop
+            self.emit(r.choice(BCMP), skip, self.ireg(), self.isrc())
+            if r.chance(1, 2):
+                self.emit("add", ss, ss, 0)
+            else:
+                self.body_insns(1 + r.below(2))
+            self.emit("label", skip)
+        self.emit("sub", sn, sn, 1)
+        self.emit("bgt", head, sn, 0)
+        d = self.ireg()
+        self.emit("mov", d, ss)
+        if r.chance(1, 3):
+            self.emit("xor", d, d, r.choice([sa, sb, sc]))
+        self.loopdepth -= 1
+        self.stat("inner_loop")
+
     def body_insns(self, n):
         for _ in range(n):
-            k = self.r.below(20)
-            if k < 11:
+            k = self.r.below(21)
+            if k == 20 and self.loopdepth < 2:
+                self.gen_loop()
+            elif k < 11:
                 self.gen_int()
             elif k < 14 and self.o["fp"]:
                 self.gen_fp()
@@ -386,7 +441,7 @@ class FuncGen:
             self.emit("dmov", reg, r.choice(dsrcs) if r.chance(2, 3) else ("d", r.choice([0.0, 1.0, -1.5, 3.25, 1e10, -0.0])))
         for reg in self.flts:
             self.emit("fmov", reg, ("f", r.choice([0.0, 1.0, -2.5, 0.125])))
-        for reg in ["acc", "t0", "t1", "tx", "tb", "tj"]:
+        for reg in ["acc", "t0", "t1", "tx", "tb", "tj"] + LOOPREGS:
             self.emit("mov", reg, 0)
         self.emit("mov", "fuel", o["fuel"])
         if not self.entry:
@@ -448,10 +503,10 @@ class FuncGen:
                 self.emit("xor", "acc", "acc", ("mem", "i64", k, "tal", None, 1))
         if self.entry:
             header = "i64, p:buf, i64:a0, i64:a1, i64:a2, i64:a3, d:x0, d:x1"
-            locs = [f"i64:{x}" for x in self.ints + ["acc", "t0", "t1", "tx", "tb", "tj", "fuel", "tal"]]
+            locs = [f"i64:{x}" for x in self.ints + ["acc", "t0", "t1", "tx", "tb", "tj", "fuel", "tal"] + LOOPREGS]
         else:
             header = "i64, i64:a0, i64:a1, d:x0"
-            locs = [f"i64:{x}" for x in self.ints + ["acc", "t0", "t1", "tx", "tb", "tj", "fuel", "tal", "buf"]]
+            locs = [f"i64:{x}" for x in self.ints + ["acc", "t0", "t1", "tx", "tb", "tj", "fuel", "tal", "buf"] + LOOPREGS]
         locs += [f"d:{x}" for x in self.dbls + ["dt"]] + [f"f:{x}" for x in self.flts]
         self.emit("ret", "acc")
         self.prog.funcs.append((self.fname, header, locs, self.ins))
